@@ -385,6 +385,9 @@ func (e *Engine) eval(v ssa.Value, ctx *Ctx) *Term {
 	case *ssa.Phi:
 		return e.evalPhi(x, ctx)
 	case *ssa.MakeSlice:
+		if t := e.filledByCopies(x, ctx); t != nil {
+			return t
+		}
 		capT := e.Eval(x.Cap, ctx)
 		return e.mk(OpMake, load.TypeString(x.Type())+"#"+e.site(x.Pos())+"@"+shortFn(x.Parent()), x, e.Eval(x.Len, ctx), capT)
 	case *ssa.MakeMap:
@@ -638,6 +641,94 @@ func (e *Engine) stepSites(fn *ssa.Function) (sites []ssa.CallInstruction, compl
 		}
 	}
 	return e.stepSite[fn], !e.stepOther[fn]
+}
+
+// filledByCopies: a buffer made with exactly the summed length of several
+// sources and filled, in its own block and before any other use, by copies that
+// tile it in order (`m := make([]byte, len(a)+len(b)); copy(m, a);
+// copy(m[len(a):], b)`) is the concatenation of the sources, as the appending
+// form `append(a, b...)` is.
+func (e *Engine) filledByCopies(mk *ssa.MakeSlice, ctx *Ctx) *Term {
+	if mk.Referrers() == nil {
+		return nil
+	}
+	type cp struct {
+		call *ssa.Call
+		low  ssa.Value
+		src  ssa.Value
+	}
+	var cps []cp
+	var others []ssa.Instruction
+	blk := mk.Block()
+	for _, r := range *mk.Referrers() {
+		switch x := r.(type) {
+		case *ssa.DebugRef:
+		case *ssa.Call:
+			if isBuiltin(x, "copy") && x.Call.Args[0] == ssa.Value(mk) && x.Call.Args[1] != ssa.Value(mk) && x.Block() == blk {
+				cps = append(cps, cp{x, nil, x.Call.Args[1]})
+			} else {
+				others = append(others, x)
+			}
+		case *ssa.Slice:
+			var only *ssa.Call
+			n := 0
+			if x.X == ssa.Value(mk) && x.Referrers() != nil {
+				for _, r2 := range *x.Referrers() {
+					if _, ok := r2.(*ssa.DebugRef); ok {
+						continue
+					}
+					n++
+					if c, ok := r2.(*ssa.Call); ok && isBuiltin(c, "copy") && c.Call.Args[0] == ssa.Value(x) && c.Block() == blk {
+						only = c
+					}
+				}
+			}
+			if n == 1 && only != nil && x.Max == nil {
+				cps = append(cps, cp{only, x.Low, only.Call.Args[1]})
+			} else {
+				others = append(others, x)
+			}
+		default:
+			others = append(others, r)
+		}
+	}
+	if len(cps) < 2 {
+		return nil
+	}
+	sort.Slice(cps, func(i, j int) bool { return instrIndex(cps[i].call) < instrIndex(cps[j].call) })
+	last := cps[len(cps)-1].call
+	for _, o := range others {
+		if !before(last, o) {
+			return nil
+		}
+	}
+	var parts []*Term
+	var sum *Term
+	for i, c := range cps {
+		low := C("0")
+		if c.low != nil {
+			low = StripConv(e.Eval(c.low, ctx))
+		}
+		if i == 0 {
+			if !low.IsConst("0") {
+				return nil
+			}
+		} else if !Eq(low, sum) {
+			return nil
+		}
+		src := e.Eval(c.src, ctx)
+		parts = append(parts, src)
+		ln := N(OpLen, "", src)
+		if sum == nil {
+			sum = ln
+		} else {
+			sum = N(OpBin, "+", sum, ln)
+		}
+	}
+	if !Eq(StripConv(e.Eval(mk.Len, ctx)), sum) {
+		return nil
+	}
+	return e.mk(OpConcat, "", mk, parts...)
 }
 
 // StepSites exposes stepSites.
